@@ -152,6 +152,13 @@ Definition diagnose_from (G : guard_map) (O : owner_map) (P : program) (entries 
                                     end
                      end) entries.
 
+(* the virtual owner tokens are not mutexes of the program: the deadlock-oriented checks ignore them *)
+Definition is_token (m : string) : bool := String.prefix "owner:" m.
+Definition strip_tokens (c : list instr) : list instr :=
+  filter (fun i => match i with Acq m | AcqR m | Rel m | RelR m => negb (is_token m) | _ => true end) c.
+Definition inline_all_nt (P : program) : option (list (list instr)) :=
+  match inline_all fuel0 P with Some bodies => Some (map strip_tokens bodies) | None => None end.
+
 (* ---- no lock is re-acquired on any call path (sync.Mutex / RWMutex are not reentrant; a
    recursive RLock deadlocks as soon as a writer is queued in between) ---- *)
 Fixpoint no_reacquire (X : list string) (c : list instr) : bool :=
@@ -162,13 +169,13 @@ Fixpoint no_reacquire (X : list string) (c : list instr) : bool :=
   | _ :: r => no_reacquire X r
   end.
 Definition no_recursive_lock (P : program) : bool :=
-  match inline_all fuel0 P with
+  match inline_all_nt P with
   | Some bodies => forallb (no_reacquire []) bodies
   | None => false
   end.
 Definition reacquirers (P : program) : list string :=
   flat_map (fun p => match inline fuel0 P (snd p) with
-                     | Some c => if no_reacquire [] c then [] else [fst p]
+                     | Some c => if no_reacquire [] (strip_tokens c) then [] else [fst p]
                      | None => [fst p] end) P.
 
 (* ---- lock order: the pairs (held, acquired) over all call paths form an acyclic relation, and no
@@ -205,12 +212,12 @@ Fixpoint cb_ok (X : list string) (c : list instr) : bool :=
   | _ :: r => cb_ok X r
   end.
 Definition lock_edges (P : program) : list (string * string) :=
-  match inline_all fuel0 P with
+  match inline_all_nt P with
   | Some bodies => dedup_edges (flat_map (order_edges []) bodies)
   | None => []
   end.
 Definition lock_order_ok (P : program) : bool :=
-  match inline_all fuel0 P with
+  match inline_all_nt P with
   | Some bodies => acyclic (flat_map (order_edges []) bodies) && forallb (cb_ok []) bodies
   | None => false
   end.
@@ -286,14 +293,14 @@ Fixpoint send_ok (bodies : list (list instr)) (X : list string) (c : list instr)
   | _ :: r => send_ok bodies X r
   end.
 Definition no_blocking_send_under_lock (P : program) : bool :=
-  match inline_all fuel0 P with
+  match inline_all_nt P with
   | Some bodies => forallb (send_ok bodies []) bodies
   | None => false
   end.
 Definition blocking_senders (P : program) : list string :=
-  match inline_all fuel0 P with
+  match inline_all_nt P with
   | Some bodies => flat_map (fun p => match inline fuel0 P (snd p) with
-                                      | Some c => if send_ok bodies [] c then [] else [fst p]
+                                      | Some c => if send_ok bodies [] (strip_tokens c) then [] else [fst p]
                                       | None => [fst p] end) P
   | None => map fst P
   end.
